@@ -265,7 +265,7 @@ func c08Run(t *testing.T, sc Scenario, res *Result) {
 			if r.chance(1, 2) {
 				bound = int64(r.between(1, 12))
 			}
-			certainlyStuck = bound < 0 // no action can ever run: every invocation must end in the 'no valid action' failure
+			certainlyStuck = bound < 0      // no action can ever run: every invocation must end in the 'no valid action' failure
 			byInvalidDraw := r.chance(1, 2) // the action gives up inside its first draw instead of calling Skip
 			for i := range m.Acts {
 				first := Step{Op: "skipif", Pred: Pred{Typ: "ctr", K: bound}}
